@@ -321,6 +321,7 @@ REPLAY_BINS = {
     "C02": [("c_sched", [], ["C02"]), ("c_run", [], ["C02"])],
     "C03": [("c_sched", [], ["C03"]), ("c_run", [], ["C03"])],
     "C07": [("c_run", [], ["C07"])],
+    "C08": [("c08_interrupt", ["--features", "interruptible"])],
     "C09": [("c_run", [], ["C09"])],
     "C10": [("c_sched", [], ["C10"]), ("c_run", [], ["C10"])],
     "C18": [("c18_pops", ["--features", "hooks"])],
